@@ -4,6 +4,7 @@ import (
 	"bytes"
 	"encoding/binary"
 	"encoding/gob"
+	"io"
 	"math/big"
 	"regexp"
 
@@ -84,9 +85,32 @@ func DecodeAddresses(data []string) ([]common.Address, error) {
 	return addrs, nil
 }
 
+// pureDKGPresence records which per-dealer entries of a PureDKG are set. gob cannot represent nil
+// elements of a slice of pointers (they are decoded as empty values), but the DKG tells "nothing
+// received from this dealer yet" (nil) apart from a received value.
+type pureDKGPresence struct {
+	Commitments []bool
+	Evals       []bool
+}
+
 func EncodePureDKG(p *puredkg.PureDKG) ([]byte, error) {
 	buff := bytes.Buffer{}
-	err := gob.NewEncoder(&buff).Encode(p)
+	enc := gob.NewEncoder(&buff)
+	err := enc.Encode(p)
+	if err != nil {
+		return nil, err
+	}
+	presence := pureDKGPresence{
+		Commitments: make([]bool, len(p.Commitments)),
+		Evals:       make([]bool, len(p.Evals)),
+	}
+	for i, c := range p.Commitments {
+		presence.Commitments[i] = c != nil
+	}
+	for i, e := range p.Evals {
+		presence.Evals[i] = e != nil
+	}
+	err = enc.Encode(presence)
 	if err != nil {
 		return nil, err
 	}
@@ -95,10 +119,33 @@ func EncodePureDKG(p *puredkg.PureDKG) ([]byte, error) {
 
 func DecodePureDKG(data []byte) (*puredkg.PureDKG, error) {
 	buf := bytes.NewBuffer(data)
+	dec := gob.NewDecoder(buf)
 	p := &puredkg.PureDKG{}
-	err := gob.NewDecoder(buf).Decode(p)
+	err := dec.Decode(p)
 	if err != nil {
 		return nil, err
+	}
+	presence := pureDKGPresence{}
+	err = dec.Decode(&presence)
+	if err == io.EOF {
+		// written by a version that did not record which entries are set
+		return p, nil
+	}
+	if err != nil {
+		return nil, err
+	}
+	if len(presence.Commitments) != len(p.Commitments) || len(presence.Evals) != len(p.Evals) {
+		return nil, errors.New("inconsistent puredkg encoding")
+	}
+	for i, set := range presence.Commitments {
+		if !set {
+			p.Commitments[i] = nil
+		}
+	}
+	for i, set := range presence.Evals {
+		if !set {
+			p.Evals[i] = nil
+		}
 	}
 	return p, nil
 }
